@@ -219,6 +219,26 @@ func genSplit(g *genCtx) {
 		}
 	}
 	if g.part == "limit" {
+		// many parts with a multi-unit character straddling EVERY cut of the naive plan (the shifts accumulate over
+		// 70 / 130 / 250 parts); packed GSM-7 only - the generic splitter's cuts are the recorded C14 finding
+		for _, p := range plans {
+			if !(p.proto == "smpp" && p.req == 99) {
+				continue
+			}
+			nbs := []int{70}
+			if g.thorough() {
+				nbs = []int{70, 130, 250}
+			}
+			for _, nb := range nbs {
+				ma := map[int]rune{}
+				at := p.per - 1
+				for b := 1; b < nb; b++ {
+					ma[at] = p.multi[b%len(p.multi)]
+					at += p.per - 1 // the previous part gave up its last septet
+				}
+				emit(Case{"k": "split", "proto": p.proto, "req": p.req, "ref": 3, "text": planText(r, p, at+5, ma)})
+			}
+		}
 		// the 255-part limit: texts of ~39,000 septets / 34,000 octets; few, they are expensive to judge
 		for _, p := range plans {
 			if !(p.proto == "smpp" && (p.req == 99 || p.req == 1)) && !(p.proto == "cmpp" && p.req == 0) {
